@@ -454,6 +454,40 @@ theorem nw_dispatch (s : S) (cmd arg : Bytes) (hl : s.cfg.lmtp = false)
   · rename_i h; exact absurd h hv.2.1
   · rename_i h; exact absurd h hv.2.2
 
+/-! ### STARTTLS -/
+
+@[simp] theorem nw_popHs (s : S) : nw (popHs s).2 = nw s := by unfold popHs; split <;> rfl
+@[simp] theorem nw_popAuth (s : S) : nw (popAuth s).2 = nw s := by unfold popAuth; split <;> rfl
+@[simp] theorem nw_popSasl (s : S) : nw (popSasl s).2 = nw s := by unfold popSasl; split <;> rfl
+
+@[simp] theorem nw_tlsUpgrade (s : S) : nw (tlsUpgrade s) = nw s := by
+  unfold tlsUpgrade
+  rw [nw_resetConn]
+  have : nw (forgetGreeting (logoutSess (switchWire s))) = nw (logoutSess (switchWire s)) := nw_of_eq rfl rfl
+  rw [this, nw_logoutSess]
+  exact nw_of_eq rfl rfl
+
+/-- STARTTLS: one reply when refused; `220` alone when the handshake succeeds (what follows is inside TLS); `220` and then a
+    `550` in plaintext when the handshake fails -/
+theorem nw_handleStartTLS (s : S) :
+    nw (handleStartTLS s) = nw s + 1 ∨ nw (handleStartTLS s) = nw s + 2 := by
+  unfold handleStartTLS
+  split
+  · left; simp
+  split
+  · left; simp
+  · simp only []
+    have h1 := nw_reply s 220 ⟨2, 0, 0⟩ "Ready to start TLS"
+    generalize reply s 220 ⟨2, 0, 0⟩ "Ready to start TLS" = s1 at h1 ⊢
+    have hp := nw_popHs s1
+    generalize popHs s1 = p at hp ⊢
+    obtain ⟨ok, s2⟩ := p
+    simp only [] at hp ⊢
+    split
+    · right; simp [isW, hp, h1]
+    · left; simp [isW, hp, h1]
+
+
 /-! ### LMTP: one final reply per accepted recipient -/
 
 theorem collect_length (rcpts : List Bytes) (q : List (Bytes × BRes)) (fill : BRes) : (collect rcpts q fill).length = rcpts.length := by
